@@ -31,8 +31,8 @@ suite green (288/288):
   claimed, pinned suite still 288/288) before keeping it.
 
 Across the eleven rounds 114 of the 220 seeded changes were caught on first contact (11, 12, 10, 10, 13, 10, 11, 10, 11, 8, 8 of 20), the
-other 106 pointed at generator or oracle gaps that were then closed - each table below says which - and seventeen of the
-strengthenings exposed genuine defects of the unchanged tree (fixed, §5.1: C18 x2, C08 x4, C04 x2, C15, C11, C05 x2, C20, C10 x2, C01; seven of
+other 106 pointed at generator or oracle gaps that were then closed - each table below says which - and eighteen of the
+strengthenings exposed genuine defects of the unchanged tree (fixed, §5.1: C18 x2, C08 x4, C04 x2, C15, C11, C05 x2, C20, C10 x3, C01; eight of
 them were first pointed out by seeding agents as side observations on the unmodified tree) plus one that is recorded rather than repaired
 (C06, §5.2).
 
@@ -223,7 +223,7 @@ Side observations of the round-11 agents on the unmodified tree, and what became
 (two agents) - genuine, in C05's statement, fixed; *subscribe/register/unsubscribe/unregister keep a ghost request after a failed send* - genuine, in
 C04's statement, fixed; *a bignum as a dictionary key raises ValueError out of parse()* and *session ids nested in options / details are not
 range-checked* - genuine, in C08's statement (the check now mutates dictionary keys and judges nested ids), both fixed; *a result that is neither
-serializable nor small is never answered* - genuine, in C10's statement (new endpoint behaviour), fixed; *a control frame written into an open streaming-API frame* - genuine, in C01's statement ("every byte the sender writes forms a well-formed RFC 6455
+serializable nor small is never answered* and *a retained `details.progress` writes a progressive YIELD after the terminal reply* - genuine, in C10's statement (new endpoint behaviours), both fixed; *a control frame written into an open streaming-API frame* - genuine, in C01's statement ("every byte the sender writes forms a well-formed RFC 6455
 frame sequence"; the streaming examples feed a frame over several reactor turns), reproduced by a new enumerated job and fixed;
 *`onMessage` before `onOpen` with a pending client `onConnect()`* and *`beginMessage()` directly followed by `endMessage()`* - the first is not covered
 by any listed statement, the second is a use of the streaming API outside its documented order and is not generated; *second immediate TCP drop after a violation with failByDrop off* - already discussed below
